@@ -5,7 +5,7 @@
 From Coq Require Import ZArith List Bool Permutation Reals QArith Qabs Sorting.Sorted Floats.
 From Flocq Require Import Core.
 From Flocq Require Raux.
-From SIDGen Require GeneratedF GeneratedFS.
+From SIDGen Require GeneratedF GeneratedFS Generated64.
 From SID Require Import Base F64 SetOps SetMore AShiftR Comb Vec Quat VecF VecExact OrdMax PointLaws FloatId MatCtor GenEqFSTac GenEqFSCommon GenEqFSR3 GenEqFSVector GenEqFSMatrix GenEqFSPoint GenEqFSLine GenEqFSQuat GenC20.
 Import ListNotations.
 
@@ -614,6 +614,31 @@ Proof. exact gen_rotate_opposite_and_generic_ok. Qed.
 Print Assumptions C20_generated_rotation_opposite_and_generic_pairs_obey_the_law.
 Close Scope R_scope.
 
+(* ================= CalculateArithmeticShift on 64-bit integers: the kernel regenerated in the translator's int64 mode (Generated64.v: wrapped
+   value + flag "nothing wrapped") returns floor(index * 2^shift) with the flag true on the property's own domain ================= *)
+Open Scope Z_scope.
+Theorem C20_generated_int64_shift_is_floor_when_it_fits : forall i s, - 63 < s < 63 -> - 2 ^ 63 <= i * 2 ^ Z.max 0 s < 2 ^ 63 ->
+  Generated64.CalculateArithmeticShift i s = Some (ashift i s, true) /\ is_floor_shift i s (ashift i s).
+Proof. exact gen64_shift_both. Qed.
+Print Assumptions C20_generated_int64_shift_is_floor_when_it_fits.
+Theorem C20_generated_int64_shift_right_is_floor_unconditionally : forall i s, - 63 < s <= 0 -> - 2 ^ 63 <= i < 2 ^ 63 ->
+  Generated64.CalculateArithmeticShift i s = Some (ashift i s, true) /\ ashift i s * 2 ^ (- s) <= i < (ashift i s + 1) * 2 ^ (- s).
+Proof. exact gen64_shift_right_is_floor. Qed.
+Print Assumptions C20_generated_int64_shift_right_is_floor_unconditionally.
+(* three more helpers regenerated from the source, exact on integers *)
+Theorem C20_generated_vector_sub_is_exact_on_integers : forall a b ma mb, ibv K (vt a) ma -> ibv K (vt b) mb ->
+  ibv (K + K) (vt (GeneratedFS.Vector3_Sub a b)) (zsub ma mb).
+Proof. exact gen_sub_exact_on_integers. Qed.
+Print Assumptions C20_generated_vector_sub_is_exact_on_integers.
+Theorem C20_generated_point_translate_is_exact_on_integers : forall p a mp ma, ibv K (vt p) mp -> ibv K (vt a) ma ->
+  ibv (K + K) (vt (GeneratedFS.Point3_Translate p a)) (zadd mp ma).
+Proof. exact gen_translate_exact_on_integers. Qed.
+Print Assumptions C20_generated_point_translate_is_exact_on_integers.
+Theorem C20_generated_line_end_is_exact_on_integers : forall p d mp md, ibv K (vt p) mp -> ibv K (vt d) md ->
+  ibv (K + K) (vt (GeneratedFS.Line3_End (p, d))) (zadd mp md).
+Proof. exact gen_line_end_exact_on_integers. Qed.
+Print Assumptions C20_generated_line_end_is_exact_on_integers.
+
 (* ================= non-vacuity ================= *)
 Close Scope Q_scope.
 Close Scope R_scope.
@@ -652,3 +677,8 @@ Proof. exact new_matrix3_example. Qed.
 Example C20_nonvacuous_generated_hypotheses :
   finm (FM 1 2 3 4 5 6 7 8 9) /\ finv (vt (1, 2, 3)%float) /\ ibv K (vt (3, -7, 3)%float) (ZV 3 (-7) 3).
 Proof. exact gen_hypotheses_inhabited. Qed.
+Example C20_generated_int64_shift_evaluated :
+  Generated64.CalculateArithmeticShift (-5) (-1) = Some (-3, true) /\ Generated64.CalculateArithmeticShift (-1) (-62) = Some (-1, true) /\
+  Generated64.CalculateArithmeticShift 1 62 = Some (2 ^ 62, true) /\ Generated64.CalculateArithmeticShift (2 ^ 62) 1 = Some (- 2 ^ 63, false) /\
+  Generated64.CalculateArithmeticShift 3 62 = Some (- 2 ^ 62, false).
+Proof. exact gen64_shift_examples. Qed.
